@@ -8,7 +8,10 @@ def J(harness, **kw):
     d.update(kw)
     return d
 
+PROM = dict(overlay="harness/prometheus", pkgdir="ee/plugins/prometheus", pkgname="roprometheus")
+
 PROPS = {
+    "C19": {"quick": [J("^vhC19_.*_L2$", samples=4, **PROM)], "thorough": [J("^vhC19_.*_L3$", samples=8, **PROM)], "bounds": {}, "assumptions": ["prometheus client library replaced by counting stubs (Inc=+1, Observe=count+1, one child per vector); introspection.GetFunctionDescription replaced by a fixed description; licence = the package's own bypass flag"]},
     "C05": {"quick": [J("^vhC05_multi_T4$", samples=4)], "thorough": [J("^vhC05_multi_T5$", samples=8)], "bounds": {}, "assumptions": []},
     "C06": {"quick": [J("^vhC06_(inside_L2|wait_L1|collect_L2)$", preempt=1, samples=3)], "thorough": [J("^vhC06_(inside_L3|wait_L2|collect_L3)$", preempt=2, samples=4)], "bounds": {}, "assumptions": []},
     "C08": {"quick": [J("^vhC08_(sync_L2|handoff_n2)$", preempt=1, samples=3)], "thorough": [J("^vhC08_(sync_L3|handoff_n3)$", preempt=2, samples=4)], "bounds": {}, "assumptions": []},
